@@ -52,7 +52,7 @@ pub struct IssuerReal {
 
 /// Build an issuer certificate from the model's description, with the given signing key.
 pub fn make_issuer(dn: &DnSpec, key_id: &KeyIdSpec, key_usages: &[u8], key: KeyPair, key_pub: KeyPub) -> Result<IssuerReal, String> {
-    let mut st = CertState::default();
+    let mut st = base_cert_state();
     st.dn = dn.clone();
     st.key_id = key_id.clone();
     st.key_usages = key_usages.to_vec();
@@ -167,7 +167,8 @@ pub fn eval_cert(st: &CertState, ctx: &Ctx) -> CertEval {
             if let Some(log) = &ctx.log {
                 let mut l = log.lock().unwrap();
                 // this context may be shared between threads: look for our message
-                if let Some(pos) = l.messages.iter().position(|m| m == &abs.tbs_raw) {
+                let exact = (0..l.messages.len()).find(|&i| l.messages[i] == abs.tbs_raw && l.returned[i].as_deref() == Some(abs.sig.as_slice()));
+                if let Some(pos) = exact.or_else(|| l.messages.iter().position(|m| m == &abs.tbs_raw)) {
                     let ret = l.returned[pos].clone();
                     if ret.as_deref() != Some(abs.sig.as_slice()) || abs.sig_unused != 0 {
                         ev.findings.push(Finding::new("SIG-NOT-RETURNED-BYTES", "signatureValue", "signature bits differ from what the remote signer returned"));
